@@ -105,6 +105,29 @@ def run(cap):
                 blk = nc_[Pn][mesh.region_indices[rid]]
                 wv = max(wv, amax((blk.max(axis=1) - blk.min(axis=1)) / _tau(opts, blk[:, 0])))
             out.append(rec("file.psixy_const_along_y." + loc, cls, len(mesh.regions), wv, 2.0))
+        # psixy is one value along a whole flux tube: the y-neighbour BOUT++ reads from the topology
+        # integers (across region joins and branch cuts) has the psixy of the same radial index
+        try:
+            from ..boutindex import Topo
+
+            up = Topo(nc_).up_map()
+            wj = 0.0
+            nj = 0
+            whj = None
+            for Pn in ("psixy", "psixy_xlow"):
+                A = nc_[Pn]
+                for (x, f), g in up.items():
+                    if g is None:
+                        continue
+                    # psixy is psi evaluated at the (refined) point: equal to the refinement tolerance
+                    e = abs(A[x, f] - A[x, g]) / (2.0 * float(_tau(opts, A[x, f])))
+                    nj += 1
+                    if e > wj:
+                        wj = e
+                        whj = {"var": Pn, "x": int(x), "y": int(f), "y_neighbour": int(g), "values": [float(A[x, f]), float(A[x, g])]}
+            out.append(rec("file.psixy equal in y-neighbouring cells (BOUT++ neighbour map, across joins)", cls, nj, wj, 1.0, where=whj, note="difference in units of twice the point-refinement tolerance"))
+        except Exception as e:  # noqa: BLE001
+            out.append(rec("informational: y-neighbour map not evaluated (%s)" % type(e).__name__, cls + "|no-topology", 0, 0, 0))
         tot_pin = 0
         for suffix, drow in (("corners", 0), ("lower_right_corners", 1), ("upper_left_corners", 0), ("upper_right_corners", 1)):
             Rn, Zn = "Rxy_" + suffix, "Zxy_" + suffix
